@@ -64,6 +64,25 @@ def chromname(c):
     return _CHROMNAMES[c] if 0 <= c < len(_CHROMNAMES) else f"c{c}"
 
 
+class names_as:
+    """`with gen.names_as(["1", "2", "3"]):` — chromosome names for the duration of one case (numeric names, say); the
+    workers run one case at a time, so the swap is local to the case"""
+
+    def __init__(self, names):
+        self.names = list(names)
+
+    def __enter__(self):
+        global _CHROMNAMES
+        self.old = _CHROMNAMES
+        _CHROMNAMES = self.names + [f"c{k}" for k in range(len(self.names), 12)]
+        return self
+
+    def __exit__(self, *a):
+        global _CHROMNAMES
+        _CHROMNAMES = self.old
+        return False
+
+
 def chromid(name):
     """inverse of chromname (raises ValueError on a name that is not one of ours)"""
     name = name.decode() if isinstance(name, bytes) else str(name)
